@@ -14,6 +14,8 @@ from vpbt.core import Collector, Ctx
 
 VERIF = core.VERIF
 KNOWN_FILE = os.path.join(VERIF, "KNOWN_FINDINGS.txt")
+# evidence/ and replays/ are written under OUT (default /verif; sensitivity runs redirect it)
+OUT = os.environ.get("VPBT_OUT") or VERIF
 
 
 def load_module(pid):
@@ -58,7 +60,7 @@ def _worker(args):
 
 
 def write_replay(pid, failure):
-    d = os.path.join(VERIF, "replays", pid)
+    d = os.path.join(OUT, "replays", pid)
     os.makedirs(d, exist_ok=True)
     payload = dict(property=pid, bucket=failure["bucket"], sig=failure.get("sig"),
                    message=failure["message"], data=failure["data"],
@@ -108,7 +110,7 @@ def write_evidence(pid, tier, seed, col, wall, violations, mod, extra_cov=None):
     )
     # minimal schema sanity (full schema validated in development with jsonschema)
     assert isinstance(cov["samples"], list)
-    d = os.path.join(VERIF, "evidence")
+    d = os.path.join(OUT, "evidence")
     os.makedirs(d, exist_ok=True)
     tmp = os.path.join(d, pid + ".json.tmp")
     with open(tmp, "w") as f:
